@@ -10,6 +10,8 @@
 #include <Eigen/Core>
 #include <complex>
 
+#include "VerifHooks.h"
+
 /// \cond
 
 namespace Spectra {
@@ -105,6 +107,7 @@ public:
     // Ranging from -0.5 to 0.5
     void random_vec(Vector& vec)
     {
+        SPECTRA_VERIF_YIELD(4);
         const Index len = vec.size();
         for (Index i = 0; i < len; i++)
         {
